@@ -385,8 +385,12 @@ kani("models::quantizer_search_u8", ["C03", "C10", "C20"], kind="bounded", bound
      text="search terminates, symbol in support, interval holds the quantile, == encoder view; any support incl. 0..=255, any hint")
 kani("models::quantizer_search_i8", ["C03", "C10", "C20"], kind="bounded", bound="step-shaped CDFs; all supports, hints, quantiles of i8 symbols", timeout=7200, tier="thorough",
      fns=[M + "quantize.rs::<LeakilyQuantizedDistribution as DecoderModel>::quantile_function"])
-kani("models::generic_conversions_p8", ["C05"], kind="bounded", bound="2-symbol tables, P=8", fns=[M + "model.rs::IterableEntropyModel::{to_generic_encoder_model,to_generic_decoder_model}", M + "categorical/non_contiguous.rs::{NonContiguousCategoricalDecoderModel,NonContiguousCategoricalEncoderModel}::from_iterable_entropy_model"])
-kani("models::generic_conversions_p5", ["C05"], kind="bounded", bound="2-symbol tables, P=5", tier="thorough", timeout=3600, fns=[M + "model.rs::IterableEntropyModel::{to_generic_encoder_model,to_generic_decoder_model}"])
+for _p in ("p8", "p5"):
+    kani(f"models::generic_decoder_{_p}", ["C05"], kind="bounded", bound="2-symbol tables (all), " + _p, timeout=900,
+         fns=[M + "model.rs::IterableEntropyModel::to_generic_decoder_model", M + "categorical/non_contiguous.rs::NonContiguousCategoricalDecoderModel::from_iterable_entropy_model"],
+         text="to_generic_decoder_model(m).quantile_function(q) == m.quantile_function(q) for every q")
+    kani(f"models::generic_encoder_{_p}", ["C05"], kind="bounded", bound="2-symbol tables (all), " + _p + "; hashbrown table", timeout=7200, tier="thorough",
+         fns=[M + "model.rs::IterableEntropyModel::to_generic_encoder_model", M + "categorical/non_contiguous.rs::NonContiguousCategoricalEncoderModel::from_iterable_entropy_model"])
 kani("models::lazy_vs_eager_small_p8", ["C05", "C03"], kind="bounded", bound="3 entries from {0,0.5,1,3}", timeout=900,
      fns=[M + "categorical/lazy_contiguous.rs::LazyContiguousCategoricalEntropyModel::{from_floating_point_probabilities_fast,left_cumulative_and_probability,quantile_function}"])
 for p, tier in (("p5", "quick"), ("p8", "quick"), ("p3", "thorough")):
@@ -572,3 +576,11 @@ verus_unit(
         "quantile_function": dict(own=["C10", "C03", "C20"], dep=["C05"], text="ensures: both unchecked accesses in bounds for any table size; probability nonzero; cum <= q < cum + prob [all P]"),
     },
 )
+QF = [M + "quantize.rs::<LeakilyQuantizedDistribution as DecoderModel>::quantile_function"]
+kani("models::quantizer_search_small_u8", ["C03", "C10", "C20"], kind="bounded", bound="supports of <= 8 u8 symbols anywhere in the type (incl. at 0 and 255); step-shaped CDFs; all hints, quantiles", timeout=1500, fns=QF,
+     text="search terminates, symbol in support, interval holds the quantile, == encoder view; wrong hints and supports touching Symbol::MIN/MAX included")
+kani("models::quantizer_search_small_i8", ["C03", "C10", "C20"], kind="bounded", bound="supports of <= 8 i8 symbols anywhere in the type; step-shaped CDFs", timeout=3600, tier="thorough", fns=QF)
+kani("models::quantizer_search_u8_full", ["C03", "C10", "C20"], kind="bounded", bound="support 0..=255, step-shaped CDFs", timeout=3600, tier="thorough", fns=QF)
+kani("models::quantizer_search_u8_top", ["C03", "C10", "C20"], kind="bounded", bound="support 100..=255, step-shaped CDFs", timeout=3600, tier="thorough", fns=QF)
+kani("models::quantizer_search_i8_full", ["C03", "C10", "C20"], kind="bounded", bound="support -128..=127, step-shaped CDFs", timeout=3600, tier="thorough", fns=QF)
+kani("models::quantizer_search_i8_mid", ["C03", "C10", "C20"], kind="bounded", bound="support -10..=20, step-shaped CDFs", timeout=3600, tier="thorough", fns=QF)
